@@ -36,8 +36,8 @@ ASSUMPTIONS = ['x86-64 Linux: __stdcall/__cdecl are accepted and ignored by both
                'SystemError/MemoryError/RecursionError which are reported',
                'strings naming an undeclared struct/union/enum tag are outside the grammar (the in-line '
                'FFI declares them on the fly) and are left out']
-BUDGET = {'quick': 4800, 'thorough': 256000}
-TIME = {'quick': 15, 'thorough': 800}
+BUDGET = {'quick': 3200, 'thorough': 128000}
+TIME = {'quick': 10, 'thorough': 800}
 ITEMS = {'quick': 40, 'thorough': 40}
 MIN_PER_SHARD = 10
 
